@@ -47,11 +47,14 @@ fn replay(v: &serde_json::Value, r: &mut Report, thorough: bool) {
             let wl = lasso::Workload::from_json(&v);
             println!("replaying lasso workload {}", wl.to_json());
             let mut w = exec::World::new(0);
-            let cap = lasso::round_cap(thorough);
-            if let Some(res) = lasso::run_workload(&mut w, &wl, cap, &mut r, true) {
+            // H_ALLOC_BRUTE=1: no skipping of countdown-only repetitions
+            let lim = lasso::limits(thorough, std::env::var("H_ALLOC_BRUTE").is_err());
+            if let Some(res) = lasso::run_workload(&mut w, &wl, lim, &mut r, true) {
                 println!(
-                    "rounds {} states {} recurrence {:?} max footprint {} final {} bound {} peak live {}",
+                    "repetitions executed {} (+{} skipped) stop {} states {} recurrence {:?} max footprint {} final {} bound {} peak live {}",
                     res.rounds,
+                    res.skipped,
+                    res.stop,
                     res.states,
                     res.recurrence,
                     res.max_footprint,
@@ -59,7 +62,7 @@ fn replay(v: &serde_json::Value, r: &mut Report, thorough: bool) {
                     wl.bound(),
                     wl.peak_live()
                 );
-                lasso::judge(&wl, &res, cap, &mut r);
+                lasso::judge(&wl, &res, &mut r);
             }
         } else {
             let c = exec::Case::from_json(&v);
